@@ -209,6 +209,11 @@ def run_once(seed, K, dup, router_cls=c13.Router):
             from bromelia.base import DiameterAnswer
             from bromelia.avps import ResultCodeAVP
             ans = DiameterAnswer(header=reqs[k - 1].header, avps=[ResultCodeAVP(2001)])
+            if (seed + k) % 3 == 0:
+                # the match is by Hop-by-Hop: an answer that does not echo the End-to-End still belongs to the caller
+                import copy as _copy
+                ans = DiameterAnswer(header=_copy.deepcopy(reqs[k - 1].header), avps=[ResultCodeAVP(2001)])
+                ans.header.end_to_end = bytes(4) if (seed + k) % 2 else bytes([0xEE, 0xEE, 0, k])
             events.append({"a": "arrive", "c": k, "k": copy, "found": False, "v": 0})
             app.handler_pending_answers(ans)
 
@@ -299,6 +304,13 @@ def run(rep):
             rep.violation(verdict, {"kind": "resend", "seed": seed})
             break
     rep.notes["retransmission_runs"] = nres
+    for i in range(40 if rep.tier == "quick" else 800):
+        seed = rng.getrandbits(30)
+        verdict = run_two_interfaces(seed)
+        rep.case(("two-interfaces", i))
+        if verdict:
+            rep.violation(verdict, {"kind": "two-interfaces", "seed": seed})
+            break
     if traces:
         rep.sample({"trace_prefix": traces[0][:10]})
         validate(rep, traces, metas)
@@ -345,6 +357,14 @@ def replay(rep, path):
     r = json.load(open(path))["replay"]
     from engine import vsched
     vsched.install(0)
+    if r.get("kind") == "two-interfaces":
+        verdict = run_two_interfaces(r["seed"])
+        if verdict:
+            rep.violation(verdict, r)
+        rep.case(str(r))
+        rep.states, rep.transitions = 1, 1
+        rep.sample(r)
+        return rep.finish()
     if r.get("kind") == "resend":
         verdict, out = run_resend(r["seed"])
         if verdict:
@@ -418,3 +438,50 @@ def run_resend(seed, router_cls=c13.Router):
     ok = len(results) == 3 and all(results) and not (isinstance(out, str) and out.startswith(("deadlock", "Step")))
     s.kill_all()
     return (None if ok else f"retransmission: {sum(1 for r in results if r)} of 3 calls returned their answer ({out}); threads ended by exception: {dead}"), out
+
+
+
+def run_two_interfaces(seed, router_cls=c13.Router):
+    """Two Diameter interfaces (two Worker objects) with the same Hop-by-Hop identifier outstanding on both at once (identifiers are
+    unique per connection only): each caller must get the answer that arrived on ITS interface."""
+    from engine import vsched
+    import copy as _copy
+    s = vsched.new_sched(seed, max_steps=40000)
+    router = router_cls.__new__(router_cls)
+    c13.InProcessManager, saved_mgr = SchedManager, c13.InProcessManager
+    try:
+        router.__init__()
+    finally:
+        c13.InProcessManager = saved_mgr
+    app = router.app
+    rng = random.Random(seed)
+    r1 = c13.make_request("a1", "c1", 1, rng)
+    r2 = c13.make_request("a2", "c1", 2, rng)
+    r2.header.hop_by_hop = r1.header.hop_by_hop
+    results = {}
+
+    def caller(k, r):
+        ans = app.send_message(r)
+        results[k] = (ans is not None and not ans.header.is_request() and ans.header.application_id == r.header.application_id
+                      and ans.header.end_to_end == r.header.end_to_end)
+
+    def dispatcher(r):
+        from bromelia.base import DiameterAnswer
+        from bromelia.avps import ResultCodeAVP
+        app.handler_pending_answers(DiameterAnswer(header=_copy.deepcopy(r.header), avps=[ResultCodeAVP(2001)]))
+    handlers = []
+    for key, w in {id(w): w for w in router.workers.values()}.items():
+        w.app = AppProxy(w.app, lambda msg: s.spawn(f"dispatcher{len(s.threads)}", dispatcher, msg))
+        handlers.append(s.spawn(f"send_handler{len(handlers)}", w.send_handler))
+    s.spawn("caller1", caller, 1, r1)
+    s.spawn("caller2", caller, 2, r2)
+    chooser = vsched.PCT(seed, depth=1 + seed % 3, horizon=250) if seed % 3 else None
+    try:
+        out = s.run(until=lambda: all(t.done for t in s.threads if t not in handlers), chooser=chooser)
+    except vsched.Deadlock as e:
+        out = "deadlock: " + str(e)
+    except (vsched.StepLimit, vsched.StepHang) as e:
+        out = type(e).__name__ + ": " + str(e)
+    ok = results == {1: True, 2: True} and not (isinstance(out, str) and out.startswith(("deadlock", "Step")))
+    s.kill_all()
+    return None if ok else f"two interfaces with the same Hop-by-Hop outstanding: callers got their own answer: {results} ({str(out)[:200]})"
